@@ -178,11 +178,17 @@ def run(ctx):
         if n in (30, 3000):
             ctx.sample({"case": case, "result": str(r)})
     # query-parameter helpers act as set / replace / remove on the multi-value query
-    for text in ("http://h/p?a=1&a=2&b=3", "https://u:pw@[::1]:8443/x?b=%C3%A9", "ws://h/"):
+    qs = ["a=1&a=2&b=3", "b=%C3%A9", "", "a=1&a=2&a=3&b=4", "a=1&b=2&a=3&c=4&a=5", "a=0&a=1&a=2", "b=1&a=2&a=3&a=4&a=5&c=6", "a=&a=&a=&z=1"]
+    for text in ["http://h/p?" + q for q in qs] + ["https://u:pw@[::1]:8443/x?b=%C3%A9&a=1&a=2&a=3", "ws://h/"]:
         u = URL(text)
         pairs = urllib.parse.parse_qsl(u.query, keep_blank_values=True)
         for kw in ({"a": "9"}, {"c": "new", "b": "7"}, {"z": 5}):
             ctx.count()
+            try:
+                u.include_query_params(**kw), u.replace_query_params(**kw), u.remove_query_params(*kw)
+            except BaseException as e:  # noqa
+                ctx.violation({"url": text, "helper_args": kw}, "a URL", type(e).__name__ + ": " + str(e), "a query helper raised %s" % type(e).__name__)
+                continue
             inc = urllib.parse.parse_qsl(u.include_query_params(**kw).query, keep_blank_values=True)
             exp_inc = [(k, v) for k, v in pairs if k not in kw]
             keep = []
